@@ -78,10 +78,11 @@ func init() {
 		mk("inversion-probe", 4, 20, false, inversionScenario),
 		mk("order-concurrent-race", 80, 1600, true, feedOrderScenario),
 		sup.Part{Name: "stale-handle-after-drop", Timeout: 60 * time.Second, Count: func(t string) int { return tierN(t, 60, 1200) }, Run: staleHandleScenario},
+		sup.Part{Name: "refused-inside-the-transaction", Timeout: 90 * time.Second, Count: func(t string) int { return tierN(t, 30, 600) }, Run: refusedWriteScenario},
 	)
 	sup.Register(&sup.Check{
 		Prop: "C08", Level: "exploration",
-		Rule: "(content, exactly-once, sequential) engine A with 2-3 live feeds per collection started through different handles (one of them KeysOnly and registered first in half the scenarios): after a fence write, the events received since the previous fence must be exactly the one event of a successful CAS-changing call and none for a failed one, and every field (key, opcode, body and xattrs decoded with DecodeValueWithAllXattrs, datatype, CAS, expiry, RevNo, collection id) must equal the read-back; every write call gets a buffer of its own that is overwritten as soon as the call returns (an event must not share it); one third into a history the earliest-registered feed of a collection is stopped by its terminator and the later ones must keep receiving everything; (order, exactly-once under concurrency) 2-8 writers over 2 handles and 2 collections, 2 feeds per collection: after a fence, per feed the CAS sequence is strictly increasing and every acknowledged mutation appears exactly once (by CAS where the entry point returns it, by per-key count otherwise), WithMeta writers with caller-chosen CAS values take part (left out of the order comparison) and the last event a feed delivered for a key must be the version the key ended as; a deterministic probe parks writer A between commit and post while B commits and posts; evidence counts how many commit->post windows overlapped; also under the race detector; (stale DataStore) a live feed on a re-created collection must survive another handle's fetch of that collection by name; cell = (variant, pre-state, outcome, bucket type) / (writers, max writers in window)",
+		Rule: "(content, exactly-once, sequential) engine A with 2-3 live feeds per collection started through different handles (one of them KeysOnly and registered first in half the scenarios): after a fence write, the events received since the previous fence must be exactly the one event of a successful CAS-changing call and none for a failed one, and every field (key, opcode, body and xattrs decoded with DecodeValueWithAllXattrs, datatype, CAS, expiry, RevNo, collection id) must equal the read-back; every write call gets a buffer of its own that is overwritten as soon as the call returns (an event must not share it); one third into a history the earliest-registered feed of a collection is stopped by its terminator and the later ones must keep receiving everything; (order, exactly-once under concurrency) 2-8 writers over 2 handles and 2 collections, 2 feeds per collection: after a fence, per feed the CAS sequence is strictly increasing and every acknowledged mutation appears exactly once (by CAS where the entry point returns it, by per-key count otherwise), WithMeta writers with caller-chosen CAS values take part (left out of the order comparison) and the last event a feed delivered for a key must be the version the key ended as; a deterministic probe parks writer A between commit and post while B commits and posts; evidence counts how many commit->post windows overlapped; also under the race detector; (stale DataStore) a live feed on a re-created collection must survive another handle's fetch of that collection by name; cell = (variant, pre-state, outcome, bucket type) / (writers, max writers in window); (refused inside the transaction) a call whose INSERT / UPDATE is refused by an unevaluable expression index posts no event, an acknowledged one exactly one",
 		Assumptions: append([]string{"delivery is asserted at a fence (bounded progress: 30 s), not 'eventually'", "TimeReceived, VbNo, Flags, Synchronous and the xattr framing flag of events are not compared"}, kvAssume...),
 		Parts:       parts,
 		RaceOwner:   raceOwner("C08"),
